@@ -4,8 +4,8 @@ use crate::util::*;
 use serde_json::json;
 
 fn urls() -> Vec<(String, String, String)> {
-    let hosts = ["a.b", "b.a", "a.a.b", "ab.b", "a", "b.a.b", "aa.b", "a.ba", "ba.a.b", "a-b.b", "x.a.b", "a.b.x"];
-    let paths = ["/", "/a", "/ab", "/a/b", "/b.a", "/a.b/", "/aa", "/a?b", "/a/b/a", "/.a", "/a*b", "/ba/", "/a/", "/b", "//a", "/a.b", "/a^b", "/a?a=b&b", "/ab/ba"];
+    let hosts = ["a.b", "b.a", "a.a.b", "ab.b", "a", "b.a.b", "aa.b", "a.ba", "ba.a.b", "a-b.b", "x.a.b", "a.b.x", "abb.b"];
+    let paths = ["/", "/a", "/ab", "/a/b", "/b.a", "/a.b/", "/aa", "/a?b", "/a/b/a", "/.a", "/a*b", "/ba/", "/a/", "/b", "//a", "/a.b", "/a^b", "/a?a=b&b", "/ab/ba", "/abb", "/a/bab", "/b/aab"];
     let mut v = vec![];
     for (i, h) in hosts.iter().enumerate() {
         for (j, p) in paths.iter().enumerate() {
@@ -89,6 +89,19 @@ pub fn run(seed: u64, n: usize, out: &mut Out, tier: &str) {
                 Err(_) => "R".to_string(),
             }
         };
+        // the same answers through a one-rule engine (where the rule has to be found by its tokens first):
+        // a pattern that matches per rule but is filed under a token the URL does not produce is lost there
+        if imp != "R" && !line.starts_with("@@") && parse_all(&[line.clone()]).len() == 1 {
+            let e = adblock::Engine::from_rules_parametrised(&[line.clone()], Default::default(), true, false);
+            for (i, q) in reqs.iter().enumerate() {
+                let v = e.check_network_request(&q.req);
+                let hit = v.matched || v.exception.is_some();
+                if hit != (imp.as_bytes()[i] == b'1') {
+                    out.fail("one-rule-engine-differs-from-the-rule", None, json!({"rule": line, "url": q.url, "rule_matches": imp.as_bytes()[i] == b'1', "engine": hit}));
+                }
+            }
+            out.add("engine_pairs", reqs.len() as u64);
+        }
         let hits = imp.matches('1').count();
         out.add("pattern_url_pairs", reqs.len() as u64);
         out.add("pairs_matching", hits as u64);
